@@ -287,7 +287,27 @@ def rule_macros(ctx):
 
 from .c10_wiring import rule_wiring  # noqa: E402
 
+def rule_closure(ctx):
+    """C10.f / C11.e: products of a stage are fixpoints of every earlier stage (see wiring.run_closure)."""
+    from . import c10_wiring, c11_wiring
+    from .wiring import run_closure
+
+    n = run_closure(ctx, "C10.f", c10_wiring.cases() + c11_wiring.cases(), CLOSURE_EXCEPTIONS)
+    ctx.floor("C10.f (product, earlier stage) pairs interpreted", n, 10)
+
+
+CLOSURE_EXCEPTIONS: dict = {
+    # (later stage, earlier stage): why the later stage's product must NOT get the earlier stage's rewrite
+    ("regex_substr", "indices_to_json_extract"): "the [1] it builds indexes the list regexp_extract_all returns, it is not a JSON subscript "
+                                                 "(the code's own comment: indices_to_json_extract must be before regex_substr)",
+    ("flatten", "semi_structured_types"): "UNNEST needs a real array: CAST(x AS JSON[]) must keep its ARRAY type and not become JSON",
+    ("flatten_value_cast_as_varchar", "json_extract_precedence"): "`x ->> '$'` is parenthesised by sqlglot's DuckDB generator in binary operands and binds "
+                                                                  "as intended under BETWEEN in the pinned DuckDB (checked: `j ->> '$[0]' BETWEEN 'a' AND 'a'`); no failing context known",
+}
+
+
 RULES = [
+    ("C10.f", rule_closure, ("quick", "thorough")),
     ("C10.d", rule_wiring, ("quick", "thorough")),
     ("C10.e", rule_macros, ("quick", "thorough")),
     ("C10.a", rule_order, ("quick", "thorough")),
